@@ -62,6 +62,10 @@ const STORE_CHALLENGE_INTERVAL_MAX_S: u64 = 7200;
 /// Interval to update the nodes uptime metric
 const UPTIME_METRICS_UPDATE_INTERVAL: Duration = Duration::from_secs(10);
 
+#[cfg(feature = "verif-hooks")]
+#[path = "verif_hooks.rs"]
+pub mod verif_hooks;
+
 /// Interval to clean up unrelevant records
 const UNRELEVANT_RECORDS_CLEANUP_INTERVAL: Duration = Duration::from_secs(3600);
 
